@@ -186,6 +186,18 @@ Theorem C08_detects_typed_corruption_refuted :
 Proof. exact ex_typed_corruption_accepted. Qed.
 Print Assumptions C08_detects_typed_corruption_refuted.
 
+(* NOT part of the property (its quantifier names values_changed / type_changes
+   locations only), recorded because the clause "never silently accepted" does
+   not extend to iterable_item_removed: [1,2,3] -> [1,2] applied to [1,2,9]
+   returns [1,2,9] without any error (implementation: same, raise_errors=True) *)
+Theorem C08_detection_does_not_extend_to_removed_items :
+  d_irem ex3_d = [([PKey (AInt 2)], I 3)] /\
+  resolve ex3_base [PKey (AInt 2)] = Some (I 9) /\ py_eqv (I 3) (I 9) = false /\
+  apply ex_conv ex_ro ex_ao ex3_d ex3_t1 = (ex3_t2, 0) /\
+  apply ex_conv ex_ro ex_ao ex3_d ex3_base = (ex3_base, 0).
+Proof. exact ex3_removed_item_mismatch_accepted. Qed.
+Print Assumptions C08_detection_does_not_extend_to_removed_items.
+
 (* the guards are satisfiable: a three-entry delta of a nested diff, its
    corrupted bases (value, type, missing key) *)
 Theorem C08_detection_guards_satisfiable :
